@@ -470,7 +470,7 @@ def main(ctx: Ctx) -> None:
                             "Streams: model (two-sided correspondence + oracle), perturbed (one ill-typing edit), known "
                             "(one replay per known unsound shape), wide (outside the model: oracle only = testing)")
     proved = ctx.prove("MypyVerif.Props.C01", MODEL_FILES + PROOF_FILES)
-    ctx.trusted("model: MiniPy stage 1 (Model/Lang.lean = CPython's behaviour on the fragment, Model/LangTc.lean = mypy's rules "
+    ctx.trusted("model: MiniPy stages 1–3 (Model/Lang.lean = CPython's behaviour on the fragment, Model/LangTc.lean = mypy's rules "
                 "on the fragment); both are validated against the real CPython / mypy on every run, on generated programs only",
                 "harness/c01: generator, Python/Lean renderers, canonicalisation of mypy types (Literal erased to its fallback), "
                 "the CPython child with its recording probe",
